@@ -246,20 +246,31 @@ func solve(o *Obligation, dir string, budgetMs int, portfolioAll bool) *SolveRes
 			{true, 0, 1500, "definitions and the facts touching them"},
 		} {
 			if k == 1 && os.Getenv("GOVC_NOSKOLEM") == "" {
-				if sk := o.smtSkolemized(); sk != "" {
+				prevSk := ""
+				for level := 0; level < 2; level++ {
+					sk := o.smtSkolemized(level)
+					if sk == "" || sk == prevSk {
+						continue
+					}
+					prevSk = sk
+					label := "goal skolemised, quantified assumptions instantiated at the skolem constants"
+					if level == 1 {
+						label = "quantifiers eliminated in rounds: witnesses for existential positions, instances at the witnesses and at the ground terms of the goal's cone"
+					}
 					sf := file + ".sk.smt2"
-					if err := os.WriteFile(sf, []byte(sk), 0o644); err == nil {
-						stt, out, ms := runSolver(ctx, solvers[0], sf, 2500*stageScale)
-						if kd := os.Getenv("GOVC_DUMPQ"); kd != "" && strings.HasSuffix(o.Name, kd) {
-							os.WriteFile(filepath.Join("/tmp", fmt.Sprintf("dumpq-%d-%s-skolem.smt2", os.Getpid(), stt)), []byte(sk), 0o644)
-						}
-						os.Remove(sf)
-						res.Tried = append(res.Tried, fmt.Sprintf("%s(goal skolemised, quantified assumptions instantiated at the skolem constants):%s:%dms", solvers[0].name, stt, ms))
-						if stt == "unsat" {
-							res.Status, res.Solver, res.Ms, res.Output = stt, solvers[0].name+" (goal skolemised, quantified assumptions instantiated at the skolem constants)", ms, out
-							res.SMTBytes = len(sk)
-							return res
-						}
+					if err := os.WriteFile(sf, []byte(sk), 0o644); err != nil {
+						break
+					}
+					stt, out, ms := runSolver(ctx, solvers[0], sf, 2500*stageScale)
+					if kd := os.Getenv("GOVC_DUMPQ"); kd != "" && strings.HasSuffix(o.Name, kd) {
+						os.WriteFile(filepath.Join("/tmp", fmt.Sprintf("dumpq-%d-%s-skolem%d.smt2", os.Getpid(), stt, level)), []byte(sk), 0o644)
+					}
+					os.Remove(sf)
+					res.Tried = append(res.Tried, fmt.Sprintf("%s(%s):%s:%dms", solvers[0].name, label, stt, ms))
+					if stt == "unsat" {
+						res.Status, res.Solver, res.Ms, res.Output = stt, solvers[0].name+" ("+label+")", ms, out
+						res.SMTBytes = len(sk)
+						return res
 					}
 				}
 			}
